@@ -13,6 +13,7 @@ every passing style, raise, try/except) and are run statement by statement on
 the real controller and by the model (`exec`).
 """
 import ast
+import json
 import os
 import re
 import struct
@@ -85,7 +86,40 @@ CLAIM = dict(
           "checked on every datagram by exact comparison with it, not stated as a separate theorem.  A single-pass iterable "
           "serves one command (it is exhausted afterwards - also in the unchanged code): the generators give it one.  Not driven: one context object shared by "
           "two controllers (a context pushes onto the stack of the controller that created it), callbacks registered while the "
-          "block is running."),
+          "block is running.  HARDENING CHECKLIST - what each stream validates: (1 kinds) contextual ints also as 0 / False / True, "
+          "IntEnum members and numpy.int64 (tags kind:*), chips over the full byte range on machines up to 256x256 and 1xN / Nx1, "
+          "BMP coordinates up to cabinet/frame 255 and board 23, boards / leds / states as list, tuple, set, frozenset, range, "
+          "dict keys view, iterator, generator, map, data as bytes / bytearray / memoryview, context names containing '%' and "
+          "'{}', controllers that are instances of a user subclass; NOT applicable: ints beyond a byte (chip, core, application, "
+          "board travel in 8-bit or narrower wire fields: app_id >= 256 overlaps the signal bits by design of the packet, so "
+          "larger values are illegal, not unbounded), 32-bit numpy ints (`app_id << 24` overflows in numpy, not in rig), numpy "
+          "ints as `board` of set_led / set_power (documented `int or iterable`, tested with isinstance), hashable identifiers "
+          "other than str (context names are Python keyword names), subclasses of RoutingTableEntry etc. (data of a command, not "
+          "its destination); (2 options) non-default values somewhere for: initial_context, get_software_version x/y/processor, "
+          "read/write p, set_led action, sdram_alloc tag/clear, flood_fill_aplx wait, load_application wait / n_tries 0-2 / "
+          "app_start_delay / use_count, wait_for_cores_to_reach_state count / poll_interval / timeout, set_power delay / "
+          "post_power_on_delay, send_scp's pass-through arguments, discover_connections / get_system_info x/y, BMP hosts as one "
+          "host name; left at default: scp_port, boot_port, n_tries, timeout, structs of the constructors (they go to the real "
+          "SCPConnection / struct reader, which the recording fakes replace; C07 covers them), iptag_set addr (name resolution); "
+          "(3 scale) 1100-1500 nested blocks (left by exception in half), contexts with 257-400 names, update with 300 names, "
+          "connection tables of 256x256 / 240x252 machines (~1400 boards), 24x24 machines discovered for real; nothing in scope "
+          "is counted in 8 or 16 bits except the wire fields above; (4 histories) every case is a history on one controller; "
+          "twins A B A differing in one contextual argument (explicit / context); a second controller of the same class with its "
+          "own block open, used alternately (judged as a case of its own); constructor defaults compared after every history "
+          "(`default-context-changed` pins a leak between controllers on the history that caused it, so that a replay "
+          "reproduces); (5 caller keeps and edits) the caller clears and re-uses the dictionaries it passed as initial_context / "
+          "hosts, keeps the first 6 dictionaries get_context_arguments() handed back (re-checked at the end: c18.kept) and "
+          "scribbles on all later ones; kept context objects are the re-entry streams; nothing in scope returns a lazy "
+          "iterator; a list / iterator the caller put INTO a context is the caller's (aliasing like update_current_context); "
+          "(6 faults) the n-th request of every MachineController method lost for n = 0..6, allocation failures, cores not "
+          "loading, failing stop signal, raising callbacks, boards not answering during discovery - all followed by further "
+          "commands on the same controller; (7 configuration) buffer size 16-1024, window size, per-chip core counts / link "
+          "masks / version strings / system variables that differ between the chips of one case, machine sizes and roots; NOT "
+          "varied: `_scp_data_length = None` (the lazily issued sver to (255, 255, 0) on first use is C07's subject and not part "
+          "of the wire rules here); (8 non-termination) every method call runs under common.cpu_limit(5 s; 1 s after 3 hangs), "
+          "`did-not-return` is a violation (the model's exec / wire are total functions), polling loops are also bounded by the "
+          "fake clock; undocumented exceptions of a method body are reported as model/implementation mismatches (the property "
+          "names no permitted failures other than the rejection of a missing argument)."),
     technique="Lean 4 theorems over a hand-written model + translator for signatures/constants + differential correspondence + Lean spec as oracle")
 
 THEOREMS = ["signatures_wellformed", "every_method_has_rule", "precedence", "precedence_accepted", "ctxLookup_innermost",
@@ -118,7 +152,12 @@ RULE = ("systematic part: every decorated method of MachineController and BMPCon
         "decorated method x {positional, keyword} with ALL its contextual arguments explicit inside a block that sets every "
         "contextual name of the controller to other values (initial context changed too in half of them), with random faults, "
         "application() included; leds and states (count_cores_in_state, wait_for_cores_to_reach_state) drawn from single "
-        "values, lists, tuples, sets, ranges and single-pass iterables of names or AppState numbers in every generator; random part: with-structured programs of depth <= 4 with blocks over random "
+        "values, lists, tuples, sets, frozensets, ranges, dict key views and single-pass iterables of names or AppState numbers in "
+        "every generator; contextual ints now and then 0 / bool / IntEnum / numpy.int64; scale (a handful per run): 1100-1500 "
+        "nested blocks, 257-400 names in one context, connection tables of 256x256 / 240x252 / 1x255 machines; twins A B A on one "
+        "controller differing in one contextual argument, half of them with a second controller of the same class used "
+        "alternately; every MachineController method with the n-th request lost, n = 0..6; environments (buffer size, window, "
+        "per-chip replies, subclassed controllers, BMP single host name) drawn per case; random part: with-structured programs of depth <= 4 with blocks over random "
         "subsets of argument names, a pool of kept context / application objects entered any number of times, before_close "
         "callbacks, application blocks (explicit / contextual id, failing stop, user "
         "callbacks), update_current_context, raise, try/except, calls of random methods (incl. discover_connections) in random "
@@ -194,7 +233,7 @@ class FakeConn(object):
             from rig.machine_control.scp_connection import SCPError
             raise SCPError("injected: no reply")
 
-    def _reply(self, x, y, cmd, arg1, arg2, arg3):
+    def _reply(self, x, y, cmd, arg1, arg2, arg3, p=0):
         from rig.machine_control.packets import SCPPacket
         from rig.machine_control.consts import SCPCommands as C
         from rig.machine_control.scp_connection import SCPError
@@ -209,14 +248,17 @@ class FakeConn(object):
             px, py = (rx, ry) if (x, y) == (255, 255) else (x, y)
             a1 = (px << 24) | (py << 16)
             a2 = (0xFFFF << 16) | 256
-            data = b"SC&MP/SpiNNaker\x002.1.0\x00"
+            env = self.state.get("env") or {}
+            data = (b"SARK/SpiNNaker\x002.0.1\x00" if env.get("chip_vars") and p % 2 else b"SC&MP/SpiNNaker\x002.1.0\x00")
         elif cmd == C.alloc_free:
             a1 = 0 if fault == "alloc0" else 0x60000000
         elif cmd == C.info:
             if [x, y] in mach.get("info_fail", []):
                 raise SCPError("injected: chip does not answer")
             up = 0 if [x, y] in mach.get("eth_down", []) else (1 << 25)
-            a1 = 18 | (0x3f << 8) | up
+            env = mach.get("env") or self.state.get("env") or {}
+            cores = 1 + (x * 7 + y * 3 + env.get("salt", 0)) % 18 if env.get("chip_vars") else 18
+            a1 = cores | (((x * 5 + y) % 64 if env.get("chip_vars") else 0x3f) << 8) | up
             ip = 10 | ((x & 0xff) << 16) | ((y & 0xff) << 24)
             data = bytes(18) + struct.pack("<HI", 0, ip)
         elif cmd == C.iptag:
@@ -235,7 +277,7 @@ class FakeConn(object):
         if self.state.get("fail_signal") and int(cmd) == 22:
             self.state["fail_signal"] = False
             raise StopFailed()
-        return self._reply(int(x), int(y), cmd, arg1, arg2, arg3)
+        return self._reply(int(x), int(y), cmd, arg1, arg2, arg3, int(p))
 
     def read(self, buffer_size, window_size, x, y, p, address, length_bytes):
         self._record({"kind": "mem", "conn": self.name, "x": int(x), "y": int(y), "p": int(p),
@@ -243,8 +285,13 @@ class FakeConn(object):
         v = self.mem.get(address)
         if v is not None:
             return v[:length_bytes].ljust(length_bytes, b"\0")
+        if length_bytes == 1 and self.state.get("fault") != "notwait":
+            return b"\x05"                      # a core's cpu_state: AppState.wait (the application loaded)
         if self.state.get("fault") == "iobuf" and length_bytes == 4:
             return struct.pack("<I", 0x1000)    # non-zero IOBUF pointer: get_iobuf_bytes follows it once
+        if length_bytes == 4 and (self.state.get("env") or {}).get("chip_vars"):
+            # per-chip system variables (vcpu_base, sdram_sys, iobuf_size, ...) differ from chip to chip
+            return struct.pack("<I", 0x60000000 + 0x1000 * ((int(x) * 31 + int(y)) % 97))
         return bytes(length_bytes)
 
     def write(self, buffer_size, window_size, x, y, p, address, data):
@@ -264,7 +311,7 @@ class World(object):
         self.objs, self.active = {}, []      # kept context objects by name; the with-blocks being executed
         self.entered = set()
         self.state = {"kind": "scp" if cls == "MachineController" else "bmp", "world": self,
-                      "machine": cfg.get("machine")}
+                      "machine": cfg.get("machine"), "env": cfg.get("env")}
         self.base_snap = None
         if cls == "MachineController":
             import rig.machine_control.machine_controller as m
@@ -272,29 +319,54 @@ class World(object):
             # every SCPConnection the controller opens (the initial one, and those of discover_connections)
             # is a recording fake named after the host it was opened to
             m.SCPConnection = lambda host, *a, **k: FakeConn(host_name(host), self.log, self.mem, self.state)
+            klass = m.MachineController
+            if cfg.get("subclass"):
+                # an application's own subclass of the controller (the context mechanism is inherited)
+                class Sub(m.MachineController):
+                    def __init__(self, *a, **k):
+                        super(Sub, self).__init__(*a, **k)
+                        self.own_attribute = 1
+                klass = Sub
             try:
-                self.c = m.MachineController("nohost", initial_context=py_dict(init)) if init is not None \
-                    else m.MachineController("nohost")
+                init_d = py_dict(init) if init is not None else None
+                self.c = klass("nohost", initial_context=init_d) if init is not None else klass("nohost")
+                if init_d is not None:
+                    init_d.clear()                  # the caller goes on using its own dictionary
+                    init_d["x"] = 12345
             except Exception:
                 m.SCPConnection = self.real_conn
                 raise
             self.mod = m
-            self.c._scp_data_length = 256
+            env = cfg.get("env") or {}
+            self.c._scp_data_length = env.get("buf", 256)
+            self.c._window_size = env.get("win")
             self.load_machine()
             self.apply_cfg()
             self.base_snap = self.snapshot()
         else:
             import rig.machine_control.bmp_controller as b
             real = b.SCPConnection
-            b.SCPConnection = lambda host, *a, **k: FakeConn(list(host), self.log, self.mem, self.state)
+            b.SCPConnection = lambda host, *a, **k: FakeConn([0, 0] if isinstance(host, str) else list(host),
+                                                             self.log, self.mem, self.state)
+            klass = b.BMPController
+            if cfg.get("subclass"):
+                class SubB(b.BMPController):
+                    pass
+                klass = SubB
             try:
-                hosts = {tuple(k): tuple(k) for k in cfg["bmp_conns"]}
-                self.c = b.BMPController(hosts, initial_context=py_dict(init)) if init is not None \
-                    else b.BMPController(hosts)
+                # a single host name stands for all boards of cabinet 0, frame 0
+                hosts = "bmp-host" if cfg.get("host_str") else {tuple(k): tuple(k) for k in cfg["bmp_conns"]}
+                init_d = py_dict(init) if init is not None else None
+                self.c = klass(hosts, initial_context=init_d) if init is not None else klass(hosts)
+                if init_d is not None:
+                    init_d.clear()
+                    init_d["board"] = 12345
+                if isinstance(hosts, dict):
+                    hosts.clear()                   # the caller's dictionary of hosts is its own
             finally:
                 b.SCPConnection = real
             self.mod = b
-            self.c._scp_data_length = 256
+            self.c._scp_data_length = (cfg.get("env") or {}).get("buf", 256)
 
     def close(self):
         if self.cls == "MachineController":
@@ -341,7 +413,21 @@ class World(object):
 _WRAPPED = {}      # id(one-shot iterator) -> the protocol value it was made from
 _KEEP = []         # keeps those iterators alive (ids must stay unique during a run)
 ONE_SHOT = ("iter", "gen", "map")
-KINDS = ("list", "tuple", "set", "range") + ONE_SHOT
+REITERABLE = ("list", "tuple", "set", "frozenset", "range", "keys")
+KINDS = REITERABLE + ONE_SHOT
+INT_KINDS = ("enum", "np64")      # (32-bit numpy ints overflow in `app_id << 24`: numpy semantics, not rig's)
+_ENUMS = {}
+
+
+def int_of_kind(n, kind):
+    """the int `n` as an IntEnum member / numpy integer (both are legal wherever rig takes an int)"""
+    if kind == "enum":
+        if n not in _ENUMS:
+            import enum
+            _ENUMS[n] = enum.IntEnum("K%s" % str(n).replace("-", "m"), {"member": n})
+        return _ENUMS[n].member
+    import numpy
+    return numpy.int64(n) if kind == "np64" else numpy.int32(n)
 
 
 def wrap(kind, items, canon):
@@ -353,6 +439,12 @@ def wrap(kind, items, canon):
         return tuple(items)
     if kind == "set":
         return set(items)
+    if kind == "frozenset":
+        return frozenset(items)
+    if kind == "keys":
+        return dict.fromkeys(items).keys()
+    if kind in ("bytearray", "memoryview"):
+        return bytearray(items) if kind == "bytearray" else memoryview(bytes(items))
     if kind == "range":
         return range(items[0], items[-1] + 1)
     o = iter(items) if kind == "iter" else (t for t in items) if kind == "gen" else map(lambda t: t, items)
@@ -364,7 +456,7 @@ def wrap(kind, items, canon):
 def ints_token(items, kind, rng=None):
     """protocol value for a collection of ints of the given kind (the model sees the iteration order)"""
     items = list(items)
-    if kind == "set":
+    if kind in ("set", "frozenset"):
         items = list(set(items))
     if kind == "range":
         items = list(range(min(items), min(items) + len(set(items))))
@@ -378,8 +470,13 @@ def to_val(v):
         return {"req": 1}
     if id(v) in _WRAPPED:
         return _WRAPPED[id(v)]
-    if isinstance(v, (set, frozenset, range)) and v and all(isinstance(t, int) and not isinstance(t, bool) for t in v):
+    if isinstance(v, (set, frozenset, range, type({}.keys()))) and v and \
+            all(isinstance(t, int) and not isinstance(t, bool) for t in v):
         return {"l": [int(t) for t in v]}
+    if isinstance(v, (bytearray, memoryview)):
+        return {"o": repr(bytes(v))}
+    if not isinstance(v, (int, bool)) and type(v).__module__ == "numpy" and hasattr(v, "__index__"):
+        return int(v)
     if v is None or isinstance(v, bool):
         return v
     if isinstance(v, int):
@@ -404,8 +501,10 @@ def from_val(v, objs=None):
             return Required
         if "l" in v:
             return wrap(v.get("k") or ("tuple" if v.get("t") else "list"), v["l"], {"l": list(v["l"])})
+        if "n" in v:
+            return int_of_kind(v["n"], v.get("k"))
         t = v["o"]
-        if v.get("k") in ONE_SHOT:
+        if v.get("k") in ONE_SHOT + ("bytearray", "memoryview"):
             return wrap(v["k"], ast.literal_eval(t), {"o": t})
         if t == "<aplx>":
             return aplx_file()
@@ -430,7 +529,7 @@ _OBJS = {}
 
 
 def obj_token(o):
-    if isinstance(o, dict) and ("l" in o or "o" in o):
+    if isinstance(o, dict) and ("l" in o or "o" in o or "n" in o):
         return o                     # already a protocol value (a collection of ints, a one-shot iterable)
     return to_val(o)
 
@@ -442,6 +541,12 @@ def aplx_file():
         f.close()
         _APLX[0] = f.name
     return _APLX[0]
+
+
+def some_bytes(rng):
+    """`data` as bytes, bytearray, memoryview"""
+    r = rng.random()
+    return b"abcd" if r < 0.5 else {"o": "b'abcd'", "k": "bytearray" if r < 0.75 else "memoryview"}
 
 
 def some_leds(rng):
@@ -473,7 +578,8 @@ def method_args(cls, name, rng):
     from rig.machine_control.consts import SCPCommands
     if cls == "BMPController":
         t = dict(send_scp=({}, [SCPCommands.sver]), get_software_version=({}, []),
-                 set_power=(dict(state=rng.random() < 0.5, delay=0.0, post_power_on_delay=0.0), []),
+                 set_power=(dict(state=rng.random() < 0.5, delay=rng.choice([0.0, 0.05]),
+                                 post_power_on_delay=rng.choice([0.0, 0.5])), []),
                  set_led=(dict(led=some_leds(rng), action=rng.choice([None, True, False])), []),
                  read_fpga_reg=(dict(fpga_num=rng.randrange(3), addr=4 * rng.randrange(64)), []),
                  write_fpga_reg=(dict(fpga_num=rng.randrange(3), addr=4 * rng.randrange(64), value=rng.randrange(1 << 32)), []),
@@ -483,10 +589,12 @@ def method_args(cls, name, rng):
     tx, ty = rng.randrange(2, 9), rng.randrange(2, 9)
     aligned = rng.random() < 0.5
     t = dict(
-        send_scp=({}, [SCPCommands.led, 1]), discover_connections=({}, []), application=({}, []),
+        send_scp=(dict(__extra_kw__=rng.choice([{}, {"expected_args": 0}, {"arg2": 5, "timeout": 0.25}])),
+                  rng.choice([[SCPCommands.led, 1], [SCPCommands.ver if hasattr(SCPCommands, "ver") else SCPCommands.sver]])),
+        discover_connections=({}, []), application=({}, []),
         get_software_version=({}, []), get_ip_address=({}, []),
-        write=(dict(address=0x100, data=b"abcd"), []), read=(dict(address=0x100, length_bytes=4), []),
-        write_across_link=(dict(address=0x100, data=b"abcd", link=Links.north), []),
+        write=(dict(address=0x100, data=some_bytes(rng)), []), read=(dict(address=0x100, length_bytes=4), []),
+        write_across_link=(dict(address=0x100, data=some_bytes(rng), link=rng.choice(list(Links))), []),
         read_across_link=(dict(address=0x100, length_bytes=4, link=Links.north), []),
         read_struct_field=(dict(struct_name="sv", field_name="p2p_dims"), []),
         write_struct_field=(dict(struct_name="sv", field_name="p2p_dims", values=5), []),
@@ -500,10 +608,13 @@ def method_args(cls, name, rng):
         sdram_alloc_as_filelike=(dict(size=8, tag=rng.randrange(2), clear=rng.random() < 0.5), []),
         sdram_free=(dict(ptr=0x100), []),
         flood_fill_aplx=(dict(wait=rng.random() < 0.5), [aplx_file(), {(tx, ty): {3}}]),
-        load_application=(dict(wait=rng.random() < 0.5, app_start_delay=0.0, n_tries=1), [aplx_file(), {(tx, ty): {3}}]),
+        load_application=(dict(wait=rng.random() < 0.5, app_start_delay=rng.choice([0.0, 0.01]), n_tries=rng.choice([0, 1, 2]),
+                               __extra_kw__=rng.choice([{}, {}, {"use_count": False}, {"use_count": True}])),
+                          [aplx_file(), {(tx, ty): {3}}]),
         send_signal=(dict(signal=rng.choice(["stop", "start", "sync0"])), []),
         count_cores_in_state=(dict(state=some_states(rng)), []),
-        wait_for_cores_to_reach_state=(dict(state=some_states(rng), count=1, poll_interval=0.0, timeout=None), []),
+        wait_for_cores_to_reach_state=(dict(state=some_states(rng), count=rng.choice([0, 1, 1]),
+                                            poll_interval=rng.choice([0.0, 0.5]), timeout=rng.choice([None, 2.0])), []),
         load_routing_tables=(dict(routing_tables={(tx, ty): rte}), []),
         load_routing_table_entries=(dict(entries=rte), []),
         get_routing_table_entries=({}, []), clear_routing_table_entries=({}, []), get_p2p_routing_table=({}, []),
@@ -515,6 +626,7 @@ def method_args(cls, name, rng):
 # closure tap: observe f(self, *args, **new_kwargs) inside the decorator's wrapper
 # --------------------------------------------------------------------------
 _TAP = {"depth": 0, "rec": None, "installed": {}}
+_HANGS = [0]
 
 
 def install_tap(klass):
@@ -563,7 +675,20 @@ class Unwind(Exception):
 
 
 def merged_of(c):
-    return sorted(([k, to_val(v)] for k, v in c.get_context_arguments().items()), key=lambda kv: kv[0])
+    """`get_context_arguments()`, canonical; the caller then keeps the dictionary it was handed (the first few,
+    re-checked at the end of the history) or scribbles on it (all others)"""
+    try:
+        d = c.get_context_arguments()
+    except Exception as e:      # (RecursionError on a deep stack, ...): shows up as a difference from the model
+        return [["<get_context_arguments>", {"o": type(e).__name__}]]
+    out = sorted(([k, to_val(v)] for k, v in d.items()), key=lambda kv: kv[0])
+    kept = c.__dict__.setdefault("_c18_kept", [])
+    if len(kept) < 6:
+        kept.append((d, dict(d)))
+    else:
+        d.clear()
+        d["x"] = d["app_id"] = d["board"] = "scribbled"
+    return out
 
 
 def do_call(w, m, pos, kw, events, ev_id, fault=None):
@@ -575,9 +700,17 @@ def do_call(w, m, pos, kw, events, ev_id, fault=None):
     kwargs = py_dict(kw, _OBJS)
     exc, out, res = None, None, None
     w.state["fault"], w.state["req_no"] = fault, 0
+    from harness import common
     try:
-        res = getattr(c, m)(*args, **kwargs)
+        # the model's `exec` / `wire` are total; a call of the implementation takes milliseconds here: one that is
+        # still running after 5 s of CPU time (1 s once that has happened 3 times) is reported as not returning
+        with common.cpu_limit(5 if _HANGS[0] < 3 else 1):
+            res = getattr(c, m)(*args, **kwargs)
         out = {"sent": True}
+    except common.ImplHang as e:
+        _HANGS[0] += 1
+        exc = RuntimeError(str(e))
+        out = {"sent": True, "hang": str(e)[:120], "failed": "DidNotReturn"}
     except TypeError as e:
         exc = e
         mm = re.match(r"^(\w+): missing argument (\w+)$", str(e))
@@ -623,7 +756,7 @@ def register_callbacks(w, cm, cb, events):
     cm.before_close(callback)
 
 
-def enter_object(w, st, cm, is_app, events):
+def enter_object(w, st, cm, is_app, events, body_fn=None):
     """`with cm: body` for a context object that may be fresh, active already, or used before"""
     c = w.c
     before = merged_of(c)
@@ -638,7 +771,10 @@ def enter_object(w, st, cm, is_app, events):
             w.active.append(frame)
             events.append({"ev": "enter", "id": st["id"], "merged": merged_of(c), "object": kind})
             try:
-                run_prog(w, st["body"], events)
+                if body_fn is not None:
+                    body_fn()
+                else:
+                    run_prog(w, st["body"], events)
             finally:
                 mark[0] = len(w.log)
                 if is_app and st.get("stop_fails"):
@@ -652,9 +788,11 @@ def enter_object(w, st, cm, is_app, events):
                            "app": is_app, "datagrams": w.log[mark[0]:end], "cb": frame["cbmark"] is not None})
 
 
-def run_prog(w, prog, events):
+def run_prog(w, prog, events, hook=None):
     c = w.c
     for st in prog:
+        if hook is not None:
+            hook()          # (top level only: the other controller's next command)
         s = st["s"]
         if s == "raise":
             raise Unwind()
@@ -693,6 +831,21 @@ def run_prog(w, prog, events):
         elif s == "enter":
             cm, is_app = w.objs[st["oid"]]
             enter_object(w, st, cm, is_app, events)
+        elif s == "deep":
+            # st["n"] nested `with c(**ctxs[i % k]):` blocks around the body (written flat: neither the harness
+            # nor the JSON encoder should be what limits the depth)
+            import contextlib
+
+            def left(sid, before):
+                events.append({"ev": "exit", "id": sid, "merged": merged_of(c), "before": before, "app": False,
+                               "datagrams": [], "cb": False})
+            with contextlib.ExitStack() as stack:
+                for i in range(st["n"]):
+                    cm = c(**py_dict(st["ctxs"][i % len(st["ctxs"])], _OBJS))
+                    stack.callback(left, st["id"] + i, merged_of(c))
+                    stack.enter_context(cm)
+                    events.append({"ev": "enter", "id": st["id"] + i, "merged": merged_of(c), "object": "fresh"})
+                run_prog(w, st["body"], events)
         else:
             raise ValueError(s)
 
@@ -700,23 +853,70 @@ def run_prog(w, prog, events):
 def run_impl(case):
     _WRAPPED.clear()
     del _KEEP[:]
+    if _DEFAULTS[0] is None:
+        _DEFAULTS[0] = default_contexts()
     w = World(case["cls"], case["cfg"], case.get("init"))
     events = []
-    raised = False
+    raised = [False]
     real_time = w.mod.time
     w.mod.time = FakeTime()
+    comp, w2, events2 = case.get("companion"), None, []
+
+    def first(hook=None):
+        try:
+            run_prog(w, case["prog"], events, hook)
+        except Unwind:
+            raised[0] = True
+        except (TypeError, AssertionError, StopFailed, RuntimeError) + fault_exceptions():
+            raised[0] = True
     try:
-        install_tap(type(w.c))
-        run_prog(w, case["prog"], events)
-    except Unwind:
-        raised = True
-    except (TypeError, AssertionError, StopFailed) + fault_exceptions():
-        raised = True
+        install_tap([k for k in type(w.c).__mro__ if k.__module__.startswith("rig.")][0])
+        if comp is None:
+            first()
+        else:
+            # a second controller of the same class, with a block of its own open during the whole program of the
+            # first one; its commands are issued between the first one's top-level statements
+            w2 = World(case["cls"], case["cfg"], comp["init"])
+            todo = list(comp["calls"])
+
+            def other():
+                if todo:
+                    st = todo.pop(0)
+                    do_call(w2, st["m"], st["pos"], st["kw"], events2, st["id"])
+
+            def both():
+                first(other)
+                while todo:
+                    other()
+            enter_object(w2, {"id": 900000}, w2.c(**py_dict(comp["ctx"], _OBJS)), False, events2, body_fn=both)
     finally:
         w.mod.time = real_time
+        if w2 is not None:
+            w2.close()
         w.close()
     stack_merged = merged_of(w.c)
-    return {"events": events, "raised": raised, "merged": stack_merged}
+    res = {"events": events, "raised": raised[0], "merged": stack_merged}
+    if w2 is not None:
+        res["companion"] = {"events": events2, "raised": False, "merged": merged_of(w2.c)}
+    changed = [(dict(d), cp) for d, cp in w.c.__dict__.get("_c18_kept", []) if d != cp]
+    if changed:
+        res["kept_changed"] = [[sorted(map(str, a)), sorted(map(str, b))] for a, b in changed[:2]]
+    now = default_contexts()
+    if now != _DEFAULTS[0]:
+        res["defaults_changed"] = [repr(_DEFAULTS[0]), repr(now)]
+    return res
+
+
+def default_contexts():
+    """the constructors' default arguments (the documented initial contexts are among them)"""
+    import copy
+    import rig.machine_control.machine_controller as m
+    import rig.machine_control.bmp_controller as b
+    from rig.utils.contexts import ContextMixin
+    return copy.deepcopy([repr(k.__init__.__defaults__) for k in (m.MachineController, b.BMPController, ContextMixin)])
+
+
+_DEFAULTS = [None]
 
 
 # --------------------------------------------------------------------------
@@ -760,15 +960,28 @@ def ctx_names(cls):
     return MC_CTX if cls == "MachineController" else BMP_CTX
 
 
+def desc_of(case):
+    return case.get("_desc") or {k: case[k] for k in ("cls", "cfg", "init", "prog", "companion") if k in case}
+
+
 def evaluate(ctx, cases):
     """cases: list of {cls, cfg, init, prog, ...}"""
     if not cases:
         return
     impl = [run_impl(c) for c in cases]
+    # the second controller of a case is judged like a case of its own (its program: one block around its commands)
+    cases = list(cases)
+    for c, im in list(zip(cases, impl)):
+        if "companion" in im:
+            comp = c["companion"]
+            cases.append({"cls": c["cls"], "cfg": c["cfg"], "init": comp["init"], "_desc": desc_of(c), "uses_ctx": True,
+                          "prog": [{"s": "block", "id": 900000, "ctx": comp["ctx"], "body": comp["calls"]}],
+                          "label": "companion"})
+            impl.append(im.pop("companion"))
     model = ctx.lean([model_request(c, im) for c, im in zip(cases, impl)])
     oreqs, oidx = [], []
     for ci, (case, im, mo) in enumerate(zip(cases, impl, model)):
-        desc = {k: case[k] for k in ("cls", "cfg", "init", "prog") if k in case}
+        desc = desc_of(case)
         ctx.traces += 1
         if "proto_error" in mo:
             ctx.mismatch("c18.run", "model rejected the request: %s" % mo["proto_error"], desc)
@@ -779,6 +992,13 @@ def evaluate(ctx, cases):
         if [(e["ev"], e["id"]) for e in mo["events"]] != [(e["ev"], e["id"]) for e in im["events"]]:
             ctx.mismatch("c18.events", "event sequences differ: impl=%r model=%r" % (
                 [(e["ev"], e["id"]) for e in im["events"]], [(e["ev"], e["id"]) for e in mo["events"]]), desc)
+        if "kept_changed" in im:
+            ctx.mismatch("c18.kept", "a dictionary get_context_arguments() handed back changed afterwards: %r" % (im["kept_changed"],), desc)
+        if "defaults_changed" in im:
+            ctx.violation("default-context-changed",
+                          "after this history a NEW controller no longer starts with the documented default arguments: "
+                          "constructor defaults were %s, are now %s" % tuple(im["defaults_changed"]), desc)
+            _DEFAULTS[0] = None
         if im["raised"] != mo["raised"]:
             ctx.mismatch("c18.raised", "impl raised=%r model raised=%r" % (im["raised"], mo["raised"]), desc)
         if sorted_pairs(mo["merged"]) != im["merged"]:
@@ -818,7 +1038,24 @@ def evaluate(ctx, cases):
                         ctx.mismatch("c18.reject", "impl rejects (%r), model accepts" % (out["rejected"],), desc)
                     continue
                 ctx.tag("method:%s.%s" % ("mc" if case["cls"] == "MachineController" else "bmp", meth))
-                if "body_exc" in out:
+                lab = case.get("label", "")
+                if lab.startswith(("scale/", "twins/", "companion")):
+                    ctx.tag("stream:" + lab)
+                for kv in list(out.get("kwargs", [])):
+                    if kv[1] is True or kv[1] is False:
+                        if kv[0] in ctx_names(case["cls"]):
+                            ctx.tag("kind:bool-as-int")
+                    elif kv[1] == 0 and kv[0] in ctx_names(case["cls"]):
+                        ctx.tag("kind:zero")
+                if case["cfg"].get("subclass"):
+                    ctx.tag("cfg:subclass")
+                if case["cfg"].get("env"):
+                    ctx.tag("cfg:env-buf%s%s" % (case["cfg"]["env"]["buf"], "+chip-vars" if case["cfg"]["env"]["chip_vars"] else ""))
+                if case["cfg"].get("host_str"):
+                    ctx.tag("cfg:bmp-single-host")
+                if "hang" in out:
+                    ctx.violation("did-not-return", "%s.%s did not return: %s" % (case["cls"], meth, out["hang"]), desc)
+                elif "body_exc" in out:
                     ctx.mismatch("c18.body", "%s.%s raised %s" % (case["cls"], meth, out["body_exc"]), desc)
                 elif "failed" in out:
                     ctx.tag("fault:%s:%s" % (fault_name(e["fault"]), out["failed"]))
@@ -886,6 +1123,14 @@ def evaluate(ctx, cases):
         if case.get("exc_exit"):
             nontriv = True
         case["_nontriv"] = nontriv
+        js = json.dumps([case["prog"], case.get("init")])
+        for kind in INT_KINDS + KINDS + ("bytearray", "memoryview"):
+            if '"k": "%s"' % kind in js:
+                ctx.tag("kind:%s" % kind)
+        if '"fault"' in js:
+            for n in range(7):
+                if '"fault": ["scp_err", %d]' % n in js:
+                    ctx.tag("fault-at-request:%d" % n)
     for (ci, desc, e, what, meth), r in zip(oidx, ctx.lean(oreqs)):
         if "proto_error" in r:
             ctx.mismatch("c18.oracle", r["proto_error"], desc)
@@ -907,7 +1152,7 @@ def evaluate(ctx, cases):
                           "%s.%s: a datagram did not travel over the connection of the board holding its target: %r" % (
                               cls, meth, e["datagrams"][:4]), desc)
     for case in cases:
-        desc = {k: case[k] for k in ("cls", "cfg", "init", "prog") if k in case}
+        desc = desc_of(case)
         ctx.case(desc, case.get("_nontriv", False))
 
 
@@ -944,10 +1189,14 @@ class Gen(object):
     def ctx_value(self, name):
         """contextual values pairwise distinct within a program (and away from 0 / 255 / 66)"""
         rng = self.rng
+        if self.cls == "BMPController":
+            # coordinates of the boards the controller has connections for, and a few others
+            i = BMP_CTX.index(name)
+            have = sorted({k[i] for k in self.cfg.get("bmp_conns", []) if len(k) > i})
+            return rng.choice(have + have + list(range(2 if i < 2 else 3)))
+        if rng.random() < 0.08:
+            return 0        # falsy: chip (0, *), core 0, application 0 are as good as any other
         for _ in range(200):
-            if self.cls == "BMPController":
-                v = rng.randrange(2) if name in ("cabinet", "frame") else rng.randrange(3)
-                return v
             if name == "x":
                 v = rng.randrange((self.cfg.get("dims") or [24, 24])[0])
             elif name == "y":
@@ -980,7 +1229,7 @@ class Gen(object):
             if n in cnames:
                 true[n] = (ctxvals or {}).get(n, None)
                 if true[n] is None:
-                    true[n] = self.ctx_value(n)
+                    true[n] = self.kinded(n, self.ctx_value(n))
         if self.cls == "BMPController" and name in ("set_power", "set_led") and "board" in true \
                 and not (ctxvals and "board" in ctxvals) and rng.random() < 0.45:
             # boards given as an iterable (list or tuple) of distinct board numbers
@@ -1038,16 +1287,41 @@ class Gen(object):
                     need_ctx[n] = true[n]
             elif n in given and (style != "mixed" or rng.random() < 0.7):
                 kw.append([n, obj_token(given[n])])
+        if sig["hasKeywords"]:
+            kw += [[k, obj_token(v)] for k, v in sorted(given.get("__extra_kw__", {}).items())]
         if style == "mixed":
             rng.shuffle(kw)
         st = {"s": "call", "id": self.fresh_id(), "m": name, "pos": pos, "kw": kw, "caught": caught}
         return st, need_ctx
 
+    def kinded(self, name, v):
+        """now and then the int as bool / IntEnum member / numpy integer"""
+        rng = self.rng
+        if not isinstance(v, int) or isinstance(v, bool) or rng.random() > 0.12:
+            return v
+        if v in (0, 1) and rng.random() < 0.5:
+            return bool(v)
+        kinds = ("enum",) if (self.cls, name) == ("BMPController", "board") else INT_KINDS
+        return {"n": v, "k": rng.choice(kinds)}        # (set_led / set_power: `isinstance(board, int)`)
+
     def decoys(self, names):
-        return [[n, self.ctx_value(n)] for n in names]
+        return [[n, self.kinded(n, self.ctx_value(n))] for n in names]
 
 
 def random_cfg(rng, cls):
+    cfg = random_cfg0(rng, cls)
+    if rng.random() < 0.15:
+        cfg["subclass"] = True
+    if rng.random() < 0.4:
+        # what the (simulated) machine fixes: buffer size, window, and per-chip replies that differ between chips
+        cfg["env"] = {"buf": rng.choice([16, 64, 256, 512, 1024]), "win": rng.choice([None, 1, 8]),
+                      "chip_vars": rng.random() < 0.6, "salt": rng.randrange(18)}
+    if cls == "BMPController" and rng.random() < 0.08:
+        cfg["bmp_conns"], cfg["host_str"] = [[0, 0]], True
+    return cfg
+
+
+def random_cfg0(rng, cls):
     if cls == "BMPController":
         keys = [[c, f] for c in range(2) for f in range(2)] + [[c, f, b] for c in range(2) for f in range(2) for b in range(3)]
         k = [key for key in keys if rng.random() < 0.45]
@@ -1055,13 +1329,20 @@ def random_cfg(rng, cls):
             k.append([0, 0])
         if not k:
             k = [[0, 0]]
+        if rng.random() < 0.25:
+            # other cabinets / frames / boards (a frame holds 24 boards)
+            co, fo, bmap = rng.choice([0, 3, 255]), rng.choice([0, 7, 255]), rng.choice([[0, 1, 2], [0, 5, 23], [23, 11, 0]])
+            k = [[key[0] + co, key[1] + fo] + [bmap[key[2]] for _ in key[2:]] for key in k]
         return {"bmp_conns": k}
     r = rng.random()
     if r < 0.25:
         return {"dims": None, "root": None, "conns": []}
     w = rng.choice([12, 24, 24, 36, 8, 16, 20])
     h = rng.choice([12, 24, 24, 36, 8, 16, 20])
-    root = [rng.choice([0, 0, 4, 8, 3]), rng.choice([0, 0, 8, 4, 5])]
+    if rng.random() < 0.06:
+        # the extremes: one chip wide / high, the largest machine the 8-bit coordinates allow
+        w, h = rng.choice([(1, 240), (240, 1), (2, 255), (256, 256), (255, 12), (1, 1)])
+    root = [rng.choice([0, 0, 4, 8, 3]) % w, rng.choice([0, 0, 8, 4, 5]) % h]
     if r < 0.32:
         return {"dims": [w, h], "root": None, "conns": [[0, 0]]}
     eth = []
@@ -1121,7 +1402,8 @@ def extra_cases(ctx, rng, reps):
         for (cls, name), sig in sorted(signatures().items()):
             if (cls, name) in _SKIP or name == "application":
                 continue
-            faults = (FAULTS.get(name, []) + [["scp_err", 0], ["scp_err", rng.randrange(1, 4)]]) if cls == mc else [None]
+            # the n-th request of the call is lost, for every n the longest operations reach
+            faults = (FAULTS.get(name, []) + [["scp_err", n] for n in range(7)]) if cls == mc else [None]
             if name == "wait_for_cores_to_reach_state":
                 faults = faults + ["notwait"]       # polls until the timeout (set below) expires
             for fault in faults:
@@ -1269,6 +1551,100 @@ def explicit_cases(ctx, rng, reps):
                               "prog": [{"s": "block", "id": g.fresh_id(), "ctx": ctxd, "body": [st]}],
                               "depth": 1, "uses_ctx": True, "exc_exit": False,
                               "label": "explicit/%s.%s/%s" % (cls, name, style)})
+    return cases
+
+
+def scale_cases(ctx, rng, reps):
+    """a handful of cases far beyond the usual size: > 1000 nested blocks, contexts with hundreds of names,
+    connection tables of the largest machines"""
+    cases = []
+    for rep in range(reps):
+        for cls in ("MachineController", "BMPController"):
+            cfg = random_cfg0(rng, cls)
+            g = Gen(rng, cls, cfg)
+            names = ctx_names(cls)
+            probe = lambda: g.call("sdram_free" if cls == "MachineController" else "read_adc", "default", caught=True)[0]
+            ctxs = [g.decoys([n for n in names if rng.random() < 0.5]) for _ in range(7)] + [g.decoys(names)]
+            n = rng.choice([1100, 1500]) if cls == "MachineController" else 257
+            body = [probe()] + ([{"s": "raise"}] if rng.random() < 0.5 else [])
+            prog = [{"s": "try", "body": [{"s": "deep", "id": 10000, "n": n, "ctxs": ctxs, "body": body}]}, probe()]
+            cases.append({"cls": cls, "cfg": cfg, "init": None, "prog": prog, "depth": 1, "uses_ctx": True,
+                          "exc_exit": len(body) > 1, "label": "scale/deep"})
+            # a context with hundreds of names (most of them no argument of anything)
+            g = Gen(rng, cls, cfg)
+            wide = [["n%d" % i, i] for i in range(rng.choice([257, 400]))] + g.decoys(names)
+            rng.shuffle(wide)
+            prog = [{"s": "block", "id": g.fresh_id(), "ctx": wide, "body": [
+                probe(), {"s": "update", "kv": [["m%d" % i, i] for i in range(300)]}, probe(),
+                {"s": "block", "id": g.fresh_id(), "ctx": g.decoys(names[:1]), "body": [probe()]}, probe()]}, probe()]
+            cases.append({"cls": cls, "cfg": cfg, "init": None, "prog": prog, "depth": 1, "uses_ctx": True,
+                          "exc_exit": False, "label": "scale/wide"})
+        # the largest connection tables: every board of a 256 x 256 / 240 x 252 machine discovered
+        for (w, h) in ((256, 256), (240, 252), (1, 255)):
+            root = [rng.choice([0, 4, 8]) % w, rng.choice([0, 8, 4]) % h]
+            eth = []
+            for bx in range(0, w + 12, 12):
+                for by in range(0, h + 12, 12):
+                    for dx, dy in ((0, 0), (4, 8), (8, 4)):
+                        e = [(bx + dx + root[0]) % w, (by + dy + root[1]) % h]
+                        eth.append(e)
+            eth = [list(t) for t in sorted({tuple(e) for e in eth})]
+            cfg = {"dims": [w, h], "root": root, "conns": [e for e in eth if rng.random() < 0.9]}
+            g = Gen(rng, "MachineController", cfg)
+            prog = []
+            for _ in range(12):
+                st, need = g.call(rng.choice(["read", "sdram_free", "get_chip_info", "fill", "iptag_get"]), "context")
+                g.used = set()
+                prog.append({"s": "block", "id": g.fresh_id(), "ctx": [[k, v] for k, v in need.items()], "body": [st]})
+            cases.append({"cls": "MachineController", "cfg": cfg, "init": None, "prog": prog, "depth": 1, "uses_ctx": True,
+                          "exc_exit": False, "label": "scale/table"})
+    return cases
+
+
+def twin_cases(ctx, rng, reps):
+    """TWINS on one controller: the same command three times, the middle one differing in exactly one contextual
+    argument (A B A) - given explicitly, and through the enclosing context; and a second controller of the same
+    class, in the same process, kept inside a block of its own and used alternately (its commands must not be
+    touched by the first one's contexts, nor the other way round)"""
+    import copy
+    cases = []
+    for rep in range(reps):
+        for (cls, name) in sorted(signatures()):
+            if (cls, name) in _SKIP or name in ("application", "discover_connections", "get_system_info"):
+                continue
+            sig = signatures()[(cls, name)]
+            cn = [n for n in sig["argNames"][1:] + [k for k, _ in sig["kwOnly"]] if n in ctx_names(cls)]
+            if not cn:
+                continue
+            cfg = random_cfg(rng, cls)
+            g = Gen(rng, cls, cfg)
+            style = rng.choice(["keyword", "context"])
+            a, need = g.call(name, style)
+            twin = rng.choice(cn)
+            other = g.kinded(twin, g.ctx_value(twin))
+
+            def variant(st, need, change):
+                st, need = copy.deepcopy(st), dict(need)
+                st["id"] = g.fresh_id()
+                if change:
+                    if twin in need:
+                        need[twin] = other
+                    else:
+                        st["kw"] = [[k, other if k == twin else v] for k, v in st["kw"]]
+                return {"s": "block", "id": g.fresh_id(), "ctx": [[k, v] for k, v in need.items()], "body": [st]}
+            order = [False, True, False] if rng.random() < 0.5 else [True, False, True]
+            prog = [variant(a, need, ch) for ch in order]
+            case = {"cls": cls, "cfg": cfg, "init": None, "prog": prog, "depth": 1, "uses_ctx": bool(need),
+                    "exc_exit": False, "label": "twins/%s" % style}
+            if rng.random() < 0.5:
+                # the second controller: its own initial context, one block open all the time, one command between
+                # every two statements of the first controller's program
+                g2 = Gen(rng, cls, cfg)
+                case["companion"] = {"init": g2.decoys([n for n in ctx_names(cls) if rng.random() < 0.5]),
+                                     "ctx": g2.decoys(ctx_names(cls)),
+                                     "calls": [g2.call(name, rng.choice(["default", "keyword", "mixed"]))[0] for _ in range(4)]}
+                case["label"] += "+companion"
+            cases.append(case)
     return cases
 
 
@@ -1449,7 +1825,7 @@ def random_prog(g, depth, budget):
             else:
                 prog.append(st)
         elif r < 0.62:
-            pool = ctx_names(cls) + ["tag", "clear", "foo"]
+            pool = ctx_names(cls) + ["tag", "clear", "foo", "100%s", "{}", "x{0}%d"]
             sub = [nm for nm in pool if rng.random() < 0.4]
             ctxd = g.decoys([nm for nm in sub if nm in ctx_names(cls)]) + [[nm, rng.randrange(2)] for nm in sub if nm not in ctx_names(cls)]
             if rng.random() < 0.04:
@@ -1641,6 +2017,8 @@ def run(ctx):
         cases = systematic_cases(ctx, rng, ctx.scale(1, 6) * mult)
         cases += extra_cases(ctx, rng, ctx.scale(1, 8) * mult)
         cases += reuse_cases(ctx, rng, ctx.scale(3, 40) * mult)
+        cases += scale_cases(ctx, rng, ctx.scale(1, 2) * mult)
+        cases += twin_cases(ctx, rng, ctx.scale(2, 16) * mult)
         cases += collection_cases(ctx, rng, ctx.scale(2, 12) * mult)
         cases += explicit_cases(ctx, rng, ctx.scale(3, 24) * mult)
         cases += random_cases(ctx, rng, ctx.scale(400, 40000) * mult)
